@@ -12,4 +12,8 @@ G="-d=libfuzzer"
 exec go test -c -vet=off $4 -tags "libfuzzer verif$XT" -overlay "$2" \
   -gcflags=github.com/ja7ad/otp/...=$G -gcflags=bytes=$G -gcflags=strings=$G -gcflags=slices=$G \
   -gcflags=reflect=$G -gcflags=crypto/subtle=$G -gcflags=crypto/internal/fips140/subtle=$G \
+  -gcflags=regexp=$G -gcflags=regexp/syntax=$G -gcflags=sort=$G -gcflags=strconv=$G -gcflags=fmt=$G \
+  -gcflags=unicode=$G -gcflags=unicode/utf8=$G -gcflags=math/big=$G -gcflags=encoding/hex=$G \
+  -gcflags=encoding/base32=$G -gcflags=encoding/json=$G -gcflags=container/list=$G -gcflags=path=$G \
+  -gcflags=net/url=$G -gcflags=text/scanner=$G -gcflags=hash/fnv=$G -gcflags=hash/crc32=$G -gcflags=hash/maphash=$G \
   -o "$1" .
